@@ -1,6 +1,7 @@
 package props
 
 import (
+	"sync"
 	"encoding/base64"
 	"encoding/json"
 	"flag"
@@ -47,6 +48,7 @@ type histStep struct {
 	NilOpts   bool   `json:"nilopts,omitempty"`
 	Second    bool   `json:"second,omitempty"` // use a second FileSystem instance on the same directory
 	Dir       string `json:"dir,omitempty"`    // configure the instance with this directory before the call
+	Files     []string `json:"files,omitempty"` // op pstore: documents stored by concurrent calls on the one instance
 }
 
 func cmdStoreHist(args []string) int {
@@ -67,12 +69,46 @@ func cmdStoreHist(args []string) int {
 	be, be2 := storage.NewFileSystem(), storage.NewFileSystem()
 	be.Options.Path, be2.Options.Path = *dir, *dir
 	for i, st := range steps {
+		inst := be
+		if st.Op == "pstore" {
+			// documents with different identifiers stored by overlapping calls on one instance
+			fmt.Printf("STEP %d BEGIN\n", i)
+			docs := make([]*sbom.Document, len(st.Files))
+			for j, f := range st.Files {
+				b, err := os.ReadFile(f)
+				docs[j] = &sbom.Document{}
+				if err != nil || proto.Unmarshal(b, docs[j]) != nil {
+					fmt.Println("HARNESS cannot decode docfile")
+					return 3
+				}
+			}
+			errs := make([]error, len(docs))
+			var wg, start sync.WaitGroup
+			start.Add(1)
+			for j := range docs {
+				wg.Add(1)
+				go func(j int) {
+					defer wg.Done()
+					start.Wait()
+					errs[j] = inst.Store(docs[j], &storage.StoreOptions{})
+				}(j)
+			}
+			start.Done()
+			wg.Wait()
+			res := "OK"
+			for _, e := range errs {
+				if e != nil {
+					res = "ERR " + strings.ReplaceAll(e.Error(), "\n", " ")
+				}
+			}
+			fmt.Println(res)
+			continue
+		}
 		b, err := os.ReadFile(st.File)
 		if err != nil {
 			fmt.Println("HARNESS cannot read", st.File)
 			return 3
 		}
-		inst := be
 		if st.Second {
 			inst = be2
 		}
